@@ -3,6 +3,7 @@ From Coq Require Import NArith ZArith List Sorting.Permutation.
 Import ListNotations.
 From CXV Require Import Gen.TokTy Gen.StreamTables Lex.PlyLoop Stream.TokBuf Stream.TokBufThms.
 Open Scope N_scope.
+From CXV Require Import Gen.TopLoop Parse.Balanced Parse.TopLoop.
 
 (* get_doxygen: the answer is built from the comment tokens collected by [scan]
    over the layout run in front of the first significant token, filtered to
@@ -93,6 +94,51 @@ Theorem doc_not_carried_past_next_statement :
     get_doxygen_after st = (None, st).
 Proof. exact doc_not_carried_past_next_statement_lemma. Qed.
 
+(* The hand-over of the documentation text in the dispatch loop of
+   CxxParser.parse (the loop is the reference loop, its tables regenerated):
+   the first statement, and every statement behind a declaration, an access
+   specifier, a block boundary or anything else that is not a kept decoration,
+   is handed exactly the block in front of it; after such a statement nothing
+   is pending, so no text is carried across it; behind a decoration
+   (attribute, alignas, __declspec) the text handed to the decoration is passed
+   on, and only when there was none does the next block count. *)
+Theorem doc_text_of_first_statement : forall (D : Type) (x : stmt D), handed_to D None [] x = s_blk D x.
+Proof. exact handed_first. Qed.
+
+Theorem doc_text_reset_after_every_declaration : forall (D : Type) p l (s : stmt D),
+  kept D s = false -> pend D p (l ++ [s]) = None.
+Proof. exact pending_reset. Qed.
+
+Theorem doc_text_is_the_adjoining_block : forall (D : Type) p l (s x : stmt D),
+  kept D s = false -> handed_to D p (l ++ [s]) x = s_blk D x.
+Proof. exact handed_after_reset. Qed.
+
+Theorem doc_text_passes_through_decorations : forall (D : Type) p l (s x : stmt D),
+  kept D s = true ->
+  handed_to D p (l ++ [s]) x = match handed_to D p l s with Some d => Some d | None => s_blk D x end.
+Proof. exact handed_after_kept. Qed.
+
+Theorem one_call_per_statement_in_order : forall (D : Type) p (l : list (stmt D)),
+  map fst (run D p l) = map (fun s => dispatch (s_ty D s)) l.
+Proof. exact calls_in_order. Qed.
+
+(* which statements reset: everything handed to _parse_declarations, and the
+   access specifiers, braces, ';' and declaration keywords of the table; the
+   kept token types are handled by the three decoration consumers only *)
+Theorem declarations_reset_doc_text : forall (D : Type) (s : stmt D),
+  assocN (s_ty D s) tu_table = None -> kept D s = false.
+Proof. exact declaration_resets. Qed.
+
+Theorem boundaries_reset_doc_text : forall (D : Type) (s : stmt D),
+  In (s_ty D s) boundary_types -> kept D s = false.
+Proof. exact boundary_resets. Qed.
+
+Theorem kept_types_are_decorations : keep_are_decorations = true.
+Proof. exact keep_are_decorations_true. Qed.
+
+Theorem dispatch_loop_is_the_modelled_one : toploop_is_reference = true.
+Proof. exact toploop_reference. Qed.
+
 Print Assumptions get_doxygen_spec.
 Print Assumptions doc_not_carried_across_block_end.
 Print Assumptions doc_not_carried_past_next_statement.
@@ -110,3 +156,12 @@ Example c11_nonvacuous :
   | _ => False
   end.
 Proof. vm_compute. reflexivity. Qed.
+Print Assumptions doc_text_of_first_statement.
+Print Assumptions doc_text_reset_after_every_declaration.
+Print Assumptions doc_text_is_the_adjoining_block.
+Print Assumptions doc_text_passes_through_decorations.
+Print Assumptions one_call_per_statement_in_order.
+Print Assumptions declarations_reset_doc_text.
+Print Assumptions boundaries_reset_doc_text.
+Print Assumptions kept_types_are_decorations.
+Print Assumptions dispatch_loop_is_the_modelled_one.
